@@ -59,4 +59,29 @@ def TracesWellformed (G : LGraph) (cfg : Cfg) : Prop :=
   ∀ (fuel entry : Nat) (pei0 : List (Nat × Int)),
   ∀ t ∈ (run G cfg ρ fuel entry pei0).traces, TraceWF (Linked G) entry t
 
+/-! ### completeness -/
+
+/-- `Linked`, with the call → return step restricted to tuple components that are used: some edge
+leaving the call (`Out()` keeps every EdgeInfo) carries the return value's index. -/
+def LinkedO (G : LGraph) (cur next : Nat) : Prop :=
+  Linked G cur next ∧
+  (G.kind cur = .call → next ∈ (G.node cur).rets →
+    (∃ i, (next, i) ∈ (G.node cur).ins) ∨ ∃ a, (a, ((G.node next).index : Int)) ∈ (G.node cur).outs)
+
+/-- The property's first sentence at full strength, on the graph level: whatever the map iteration
+order, every node on every index-respecting backward dataflow chain from the entry argument occurs in
+some reported trace. -/
+def BackCompleteFull (G : LGraph) (cfg : Cfg) : Prop :=
+  ∀ (ρ : VNode → List Cand → List Cand), (∀ v l c, c ∈ ρ v l ↔ c ∈ l) →
+  ∀ (fuel entry : Nat), (run G cfg ρ fuel entry).finished = true →
+  ∀ t, TraceWF (LinkedO G) entry t → ∀ n ∈ t, ∃ t' ∈ (run G cfg ρ fuel entry).traces, n ∈ t'
+
+/-- keys reachable from the entry through guaranteed successors only -/
+inductive GReach (G : LGraph) (cfg : Cfg) (entry : Nat) : Key → Prop
+  | root {k : Key} : k ∈ rsucc G cfg entry → GReach G cfg entry k
+  | step {k k' : Key} : GReach G cfg entry k → k' ∈ gsucc G cfg k → GReach G cfg entry k'
+
+/-- every call to a backtrace point is an analysis entry -/
+def EntriesComplete (G : LGraph) : Prop := ∀ a ∈ pointArgs G, a ∈ entryArgs G
+
 end Argot.BackVisit
